@@ -104,7 +104,7 @@ impl Component<TagP> for Snap {
     }
 }
 
-/// (trigger kind, extractor kind): triggers 0 always, 1 never, 2 every second iteration, 3 scripted;
+/// (trigger kind, extractor kind): triggers 0 always, 1 never, 2 every second iteration, 3 scripted, 4 change of the logged state;
 /// extractors 0 present state (ValueOf), 1 missing state, 2 iteration counter, 3 the present state again (IdLens, same name)
 pub type Rule = (u8, u8);
 
@@ -149,6 +149,7 @@ fn run_log_case(c: &LogCase, export: bool) -> LogObs {
                     0 => RecTrigger { inner: Some(EveryN::iterations(1)), fixed: None, rule: i, rec: rec2.clone() },
                     1 => RecTrigger { inner: None, fixed: Some(false), rule: i, rec: rec2.clone() },
                     2 => RecTrigger { inner: Some(EveryN::iterations(2)), fixed: None, rule: i, rec: rec2.clone() },
+                    4 => RecTrigger { inner: Some(mahf::conditions::ChangeOf::new(mahf::conditions::common::PartialEqChecker::new::<u32>(), ValueOf::<Ctr>::new())), fixed: None, rule: i, rec: rec2.clone() },
                     _ => RecTrigger { inner: None, fixed: None, rule: i, rec: rec2.clone() },
                 });
                 match e {
@@ -351,7 +352,10 @@ fn check_log_case(c: &LogCase, out: &Outcome<LogObs>) -> Option<(String, String)
 }
 
 pub fn log_cases(thorough: bool) -> Vec<LogCase> {
-    let all_rules: Vec<Rule> = (0..4u8).flat_map(|t| (0..4u8).map(move |e| (t, e))).collect();
+    let mut all_rules: Vec<Rule> = (0..4u8).flat_map(|t| (0..4u8).map(move |e| (t, e))).collect();
+    // a stateful trigger (change of the logged state) that only works if the logger initialises its triggers
+    all_rules.push((4, 0));
+    all_rules.push((4, 2));
     let max_rules = if thorough { 3 } else { 2 };
     let mut sets: Vec<Vec<Rule>> = vec![vec![]];
     for l in 1..=max_rules {
